@@ -32,6 +32,73 @@ theorem retError_iff (a : Assignment) :
     a.retError = true ↔ ∃ l r, a = .simpleField l r true := by
   cases a <;> simp [Assignment.retError]
 
+/-! ## static half: nothing error-capable in a function without error result
+
+(the repaired DESIGN §5 #10: an error-returning converter or `:map` getter used to be wired into
+functions without error result; hooks were always checked by `buildManipulator`, see `Props/C10`) -/
+
+/-- a converter that can fail is never assigned from in a function without error result -/
+theorem conv_needs_error_result (ctx : BCtx) (lhs rhs : Node) (c : FieldConverter) (s : Stmt)
+    (hc : c.retError = true) (hf : ctx.retError = false) (h : ctx.createWithConverter lhs rhs c = .ok s) :
+    ∃ w, s = .noMatch lhs w := by
+  have nm : ∀ pos pre, ctx.noMatchAt pos lhs pre = .ok s → ∃ w, s = .noMatch lhs w := by
+    intro pos pre hh; unfold BCtx.noMatchAt at hh; cases hh; exact ⟨_, rfl⟩
+  unfold BCtx.createWithConverter at h
+  cases h1 : ctx.resolveExpr c.src rhs.rootOf with
+  | none => simp only [h1] at h; exact nm _ _ h
+  | some rhsNode =>
+    simp only [h1] at h
+    cases h2 : ctx.convArg c rhsNode with
+    | error e => simp only [h2] at h; cases h
+    | panic p => simp only [h2] at h; cases h
+    | ok r =>
+      obtain ⟨a?, w⟩ := r
+      cases a? with
+      | none => simp only [h2] at h; exact nm _ _ h
+      | some argNode =>
+        simp only [h2] at h
+        cases h3 : ctx.castNode (lhs.exprType ctx.env) (.conv argNode c) with
+        | error e => simp only [h3] at h; cases h
+        | panic p => simp only [h3] at h; cases h
+        | ok r3 =>
+          obtain ⟨casted?, w3⟩ := r3
+          simp only [h3] at h
+          unfold BCtx.convAssign at h
+          cases casted? with
+          | none => exact nm _ _ h
+          | some n =>
+            simp only [hc, hf, Bool.not_false, Bool.and_self, ↓reduceIte] at h
+            exact nm _ _ h
+
+/-- an error-returning getter reached through `:map` likewise -/
+theorem mapped_needs_error_result (ctx : BCtx) (lhs : Node) (pos : String) (n? : Option Node) (s : Stmt)
+    (hf : ctx.retError = false) (h : ctx.createMapped lhs pos n? = .ok s) :
+    (∃ w, s = .noMatch lhs w) ∨ (∃ r w, s = .simple lhs r false w) := by
+  unfold BCtx.createMapped at h
+  have nm : ∀ pre, ctx.noMatchAt pos lhs pre = .ok s → ∃ w, s = .noMatch lhs w := by
+    intro pre hh; unfold BCtx.noMatchAt at hh; cases hh; exact ⟨_, rfl⟩
+  cases n? with
+  | none => exact Or.inl (nm _ h)
+  | some n =>
+    simp only [bind, Outcome.bind, pure] at h
+    split at h
+    · rename_i r hr
+      obtain ⟨c?, w⟩ := r
+      simp only at h
+      cases c? with
+      | none => exact Or.inl (nm _ h)
+      | some c =>
+        simp only at h
+        by_cases he : c.returnsError = true
+        · simp only [he, hf, Bool.not_false, Bool.and_self, ↓reduceIte] at h
+          exact Or.inl (nm _ h)
+        · have he' : c.returnsError = false := by simpa using he
+          simp only [he', Bool.false_and, Bool.false_eq_true, ↓reduceIte] at h
+          cases h
+          exact Or.inr ⟨_, _, rfl⟩
+    · cases h
+    · cases h
+
 /-! ### finding (DESIGN §5 #11): a nested struct block is rendered with the plain `String()` of its
 contents — `NestStruct.RetError()` is false and nothing inside is followed by a check — so an
 error-capable assignment on a nested path is unchecked and a later call overwrites `err`. -/
